@@ -129,12 +129,16 @@ class C03(core.Prop):
     def oracle(self, case):
         F = []
         fail = lambda clause, detail, key=None: F.append(core.Failure(clause, case, detail, key or clause))
+        dialect = case['opts'].get('dialect', 'portable')
+        sampled = bool(case['size']) and len(set(rx.kept_examples(case['examples'], case['opts']))) > case['size']['do_all']
+        if dialect != 'perl' and any(isinstance(s_, str) and not s_.isascii() for s_ in case['examples']):
+            # a call in another dialect on the same examples comes first (what one dialect learnt about a character must not
+            # leak into another)
+            rx.run_extract(case['examples'], dict(case['opts'], dialect='perl'), case['size'], case['seed'], case['form'])
         res, exc, _, _ = rx.run_extract(case['examples'], case['opts'], case['size'], case['seed'], case['form'])
         if exc is not None:
             fail('raises', '%s: %s' % (type(exc).__name__, str(exc)[:150]), 'raises:' + type(exc).__name__)
             return F
-        dialect = case['opts'].get('dialect', 'portable')
-        sampled = bool(case['size']) and len(set(rx.kept_examples(case['examples'], case['opts']))) > case['size']['do_all']
         for s in case['examples']:
             if s is None:
                 continue
